@@ -1,3 +1,4 @@
 import Driver.Proto
 import Driver.Rules
 import Driver.Exhaust
+import Driver.Compose
